@@ -20,23 +20,35 @@ RULE = ('integer-valued rasters up to 10x10 (float64/float32/int32/int64, a few 
         'of position, sparse, dense, lines/diagonals, no target, all targets, layouts on which the GDAL heuristic is inexact; '
         'targets by the default rule and by explicit target_values (incl. values float32 cannot represent: int64 ids around 2**24, '
         '0.1, 1e-50, 1e39); cells taller than wide; max_distance attained exactly (radius 2, Manhattan 3, 3-4-5) and 0 / 0.0; metrics EUCLIDEAN / MANHATTAN (compared cell by cell with '
-        'the model: distance key, allocation, bearing) and GREAT_CIRCLE (oracle only, tolerance 1e-6); max_distance in '
+        'the model: distance key, allocation, bearing; GREAT_CIRCLE too, through the Coq model of the metric, integer degrees); max_distance in '
         '{0, fractions of a cell, 1, sqrt2, 2, sqrt5, ..., multiples of the cell size, inf}. proximity, allocation and '
         'direction are all called on every case. A case is non-trivial when it has at least one target and one non-target cell.')
 TRUSTED = [
     'float chain -> integer keys: the code compares float32(float32(d)**2) values; the harness maps every squared '
-    'distance occurring on the grid to its integer key (dx*dx+dy*dy, resp. (|dx|+|dy|)^2) and checks on every case that '
-    'this map is strictly monotone on the keys of the grid, translates max_distance into the two key-space thresholds '
-    'R (dist_sqr < 2*max_distance**2) and M (max_distance**2 >= dist_sqr) by evaluating the float chain, and passes the '
-    'set of keys on which float32(lp*lp) rounds above lp**2 (tie_up) to the model; the Coq theorems hold for every '
-    'tie_up, R, M',
-    'bearing: direction is compared with a Python transcription of _calc_direction applied to the model\'s remembered '
-    'target (libm atan2); allocation with float32(raster[remembered target])',
-    'GREAT_CIRCLE is not run through the model (oracle only)',
-    'prange inside the non-parallel @ngjit kernels is a sequential range (modelled as such)',
+    'distance occurring on the grid to its integer key (dx*dx+dy*dy, resp. (|dx|+|dy|)^2; GREAT_CIRCLE: the float32 distance '
+    'times 2^149, computed by the Coq model itself) and checks on every EUCLIDEAN/MANHATTAN case that this map is strictly '
+    'monotone on the keys of the grid, translates max_distance into the two key-space thresholds R (dist_sqr < '
+    '2*max_distance**2) and M (max_distance**2 >= dist_sqr) by evaluating the float chain (GREAT_CIRCLE: by bisection over '
+    'the float32 numbers), and passes the set of keys on which float32(lp*lp) rounds above lp**2 (tie_up, empty with '
+    'Numba\'s typing) to the model; the Coq theorems hold for every tie_up, R, M',
+    'libm: atan2 (bearing) and sin, cos, asin (GREAT_CIRCLE) are Section variables of the Coq models; the OCaml driver passes '
+    'Stdlib.atan2/sin/cos/asin (bit-identical here with the libm Numba calls: the three outputs are compared bit for bit). '
+    'Premises used by the theorems, all stated as hypotheses: C99 Annex F values of atan2 on the axes (atan2(+-0, x>0) = +-0, '
+    'atan2(+-0, x<0) = +-pi, atan2(y>0, +-0) = pi/2, atan2(y<0, +-0) = -pi/2, with the doubles nearest pi, pi/2) for '
+    'C06_bearing_axes; atan2 of finite arguments is finite with |.| <= the double nearest pi for C06_bearing_range / '
+    'C06_bearing_zero_iff_self; sin 0 = 0, asin 0 = 0, cos of a finite argument finite with |.| <= 1 for '
+    'C06_great_circle_key_self0 (satisfiable: Examples C06_bearing_premises_satisfiable, C06_great_circle_premises_satisfiable)',
+    'axioms reported for the float theorems: the PrimFloat / PrimInt63 primitives and their FloatAxioms specifications; '
+    'C06_bearing_range, C06_bearing_zero_iff_self and C06_great_circle_key_self0 additionally use Flocq and the axioms of the '
+    'Coq Reals library (ClassicalDedekindReals.sig_forall_dec, sig_not_dec, functional_extensionality_dep)',
+    'integer-typed coordinate arrays reach atan2 with +0 where the float model has -0 (the sign of a zero offset): both give '
+    'the same float32 bearing (checked by correspondence with int64 coordinates), only the float path is modelled',
+    'np.radians is x * (pi/180) (Numba lowering), float64 ** 2 is x*x; prange inside the non-parallel @ngjit kernels is a '
+    'sequential range (modelled as such)',
 ]
 ASSUMPTIONS = ['NumPy backend (Dask is C07); 2-D raster with dims (y, x); coordinates finite; the exact-instance model '
-               'covers integer coordinates (any integer cell size, either orientation); max_distance >= 0']
+               'covers integer coordinates (any integer cell size, either orientation; integer degrees inside '
+               '[-180,180]x[-90,90] for GREAT_CIRCLE); max_distance >= 0']
 PARTIAL = [
     'C06_exact_full_statement (proximity equals the exact nearest-target distance for every layout) is NOT claimed: the '
     'algorithm is GDAL\'s heuristic and overestimates on some larger layouts (witness: Example C06_not_exact_witness); '
@@ -45,23 +57,36 @@ PARTIAL = [
     '"never underestimated"',
     'single target with a FINITE max_distance: that every cell within max_distance is reached is checked by the oracle and '
     'by C06_bounded_exact_small (M in {1,2,4}), not proved for all sizes',
-    'direction: the bearing formula (atan2, float32) is checked by correspondence/oracle; the Coq theorem states which '
-    'target the bearing is taken to, not the trigonometry',
-    'GREAT_CIRCLE: oracle only',
+    'direction in (0, 360] / direction = 0 iff self: proved except when atan2(-dy, dx) * 57.29578 is exactly 90.0 in binary64 '
+    '(then a non-self target gets 0: Example C06_bearing_zero_nonself_witness, reproduced on the implementation and recorded '
+    'as a known finding); between the axes the bearing VALUE is whatever libm atan2 returns - proved: which target it is '
+    'taken to, the axis values, the range; checked bit for bit against the implementation',
+    'GREAT_CIRCLE: covered by every theorem that is generic in the metric key (named target, never underestimated, NaN '
+    'consistency, NaN beyond max_distance, no NaN when unbounded, single target exact, direction names the same target) - '
+    'their only premise on the metric, key_self0_on, is proved for the GREAT_CIRCLE key from libm premises '
+    '(C06_great_circle_key_self0); C06_prox_zero_iff_target additionally needs key_pd (distance 0 only between identical '
+    'coordinates), which for GREAT_CIRCLE would need accuracy/monotonicity assumptions about sin, cos, asin and is NOT claimed '
+    '(oracle-checked); C06_bounded_exact_small is EUCLIDEAN only',
 ]
-LEVEL_TEXT = ('Proved in Coq for all grid sizes, all target layouts, all thresholds (max_distance), every metric key and all '
-              'coordinates: proximity 0 iff target; every non-NaN cell remembers a real target cell, its distance is the '
-              'distance to exactly that cell (the one allocation/direction are taken from) and is <= max_distance, hence '
-              'never below the true nearest distance; a cell is NaN in proximity iff NaN in allocation/direction; a cell with no target '
-              'within max_distance is NaN in all three; with >= 1 '
-              'target and unbounded max_distance no cell is NaN; single target => exact. Bounded (vm_compute): exactness for '
-              'every target layout on every grid up to 3x4, unit cells, EUCLIDEAN, max_distance in {1, sqrt2, 2, inf}. '
-              'Exactness on larger grids is NOT claimed (refuted by a witness). Correspondence: the three public functions '
-              'vs the extracted model cell by cell (EUCLIDEAN, MANHATTAN); GREAT_CIRCLE and the bearing formula by oracle.')
-LEVEL_NOTE = ('The model works on integer squared-distance keys; the harness checks per case that the code\'s float32 '
+LEVEL_TEXT = ('Proved in Coq for all grid sizes, all target layouts, all thresholds (max_distance), EVERY metric key (a function '
+              'of the four coordinates: EUCLIDEAN, MANHATTAN and GREAT_CIRCLE are instances) and all coordinates: every non-NaN '
+              'cell remembers a real target cell, its distance is the distance to exactly that cell, allocation is that '
+              'cell\'s value and direction is _calc_direction (modelled in binary64/binary32 with libm atan2 a parameter) of '
+              'the offset to that same cell; distance <= max_distance and never below the true nearest; NaN in one output iff '
+              'in all; no target within max_distance => NaN; >= 1 target and unbounded => no NaN; single target => exact; '
+              'proximity 0 iff target (metrics with key_pd: EUCLIDEAN, MANHATTAN). Bearing, from explicit libm premises: 0 for '
+              'self, exactly 90/180/270/360 along +x/+y/-x/-y, in [0,360] and > 0 unless atan2*57.29578 == 90.0 exactly '
+              '(witness + known finding). GREAT_CIRCLE: the key model is bit-exact with _distance; key_self0 proved from '
+              'sin 0 = 0, asin 0 = 0, |cos| <= 1; key_pd not claimed. Bounded (vm_compute): exactness for every layout on grids '
+              'up to 3x4, unit cells, EUCLIDEAN, max_distance in {1, sqrt2, 2, inf}; exactness on larger grids is refuted by '
+              'a witness. Correspondence: the three public functions vs the extracted model cell by cell, bit for bit, for all '
+              'three metrics (distance key, allocation, bearing).')
+LEVEL_NOTE = ('The sweep model works on integer distance keys; the harness checks per case that the code\'s float32 '
               'distance chain is strictly monotone in the key and translates max_distance / float32 tie rounding into '
-              'model parameters (the theorems hold for all values of those parameters). Numba compilation, xarray '
-              'coordinate handling and the bearing trigonometry are trusted/oracle-checked.')
+              'model parameters (the theorems hold for all values of those parameters). The bearing and the GREAT_CIRCLE metric '
+              'are PrimFloat/SpecFloat models with libm functions as parameters; their theorems state the libm premises '
+              'explicitly (Flocq + Coq Reals axioms for the range results). Numba compilation and xarray coordinate handling '
+              'are trusted.')
 
 NWORKERS = 6
 OCAML_PACKAGES = ['coq-core.kernel']     # the bearing model uses PrimFloat
